@@ -932,7 +932,35 @@ Inductive qname :=
 | QDirSp                     (* direction * spacing  (= the three columns) *)
 | QPos                       (* position *)
 | QCenter                    (* center_position *)
-| QHand.                     (* handedness *)
+| QHand                      (* handedness *)
+(* DICOM-facing and convention-facing queries (positions of planes, orientation, pixel measures,
+   the affine in another patient convention) and VolumeToVolumeTransformer.__call__ *)
+| QPlanePos (ks : list Z)    (* get_plane_position(k) per k: ValueError outside 0 <= k < shape[0] *)
+| QPlanes                    (* get_plane_positions() *)
+| QPlaneOri                  (* get_plane_orientation() cosines * pixel spacing = columns 2 and 1 *)
+| QPixMeas                   (* get_pixel_measures(): (PixelSpacing, SliceThickness, SpacingBetweenSlices) ** 2 *)
+| QAffConv (o : list Z)      (* get_affine(output_convention) *)
+| QSpVec                     (* spacing_vectors() and unit_vectors() * spacing *)
+| QExtent2                   (* physical_extent ** 2, voxel_volume ** 2, physical_volume ** 2 *)
+| QCenterIdx                 (* nearest_center_indices, 2 * center_indices *)
+| QXfCall (pts : list idx)   (* VolumeToVolumeTransformer(initial, current)(pts) *)
+| QXfRound (pts : list idx). (* ... with round_output=True, check_bounds=True, one call per point *)
+
+(* _transform_affine_to_convention from LPH: output row r is row (code_r / 2) of the affine, negated
+   when code_r is odd (R, A, F) *)
+Definition conv_vec (d0 d1 d2 : Z) (v : vec Qc) : vec Qc :=
+  let pick d := let x := sel3 (vx v, vy v, vz v) (d / 2) in if d mod 2 =? 0 then x else Qcopp x in
+  V (pick d0) (pick d1) (pick d2).
+Definition conv_aff (d0 d1 d2 : Z) (A : aff Qc) : aff Qc :=
+  Aff (conv_vec d0 d1 d2 (c0 A)) (conv_vec d0 d1 d2 (c1 A)) (conv_vec d0 d1 d2 (c2 A))
+      (conv_vec d0 d1 d2 (tr A)).
+
+(* np.around: None when the value is exactly half-way (numpy rounds half to even; the float value
+   may sit on either side - the correspondence run treats such a point as undecided) *)
+Definition qc_round (x : Qc) : option Z :=
+  let n := Qnum (this x) in let d := Zpos (Qden (this x)) in
+  if d =? 2 then None else Some ((2 * n + d) / (2 * d)).
+Definition apply_aff (T : aff Qc) (j : idx) : vec Qc := q_phys T j.
 
 Definition half_of (n : Z) : Qc := Q2Qc ((n - 1) # 2)%Q.
 
@@ -967,6 +995,44 @@ Definition observe (A0 A : aff Qc) (shape : idx) (vals : idx -> list val) (n : q
   | QCenter => let '(n0, n1, n2) := shape in
                VL (vvec (phys Qc Qcplus Qcmult A (half_of n0) (half_of n1) (half_of n2)))
   | QHand => VB (is_left Qc (Q2Qc 0%Q) Qcplus Qcmult Qcminus qc_ltb A)
+  | QPlanePos ks =>
+      let '(n0, _, _) := shape in
+      VL (map (fun k => if (k <? 0) || (n0 <=? k) then VErr "ValueError"
+                        else VL (vvec (q_phys A (k, 0, 0)))) ks)
+  | QPlanes => let '(n0, _, _) := shape in
+               VL (flat_map (fun k => vvec (q_phys A (k, 0, 0))) (zrange n0))
+  | QPlaneOri => VL (vvec (c2 A) ++ vvec (c1 A))
+  | QPixMeas => VL [vqc (norm2 Qc Qcplus Qcmult (c1 A)); vqc (norm2 Qc Qcplus Qcmult (c2 A));
+                    vqc (norm2 Qc Qcplus Qcmult (c0 A)); vqc (norm2 Qc Qcplus Qcmult (c0 A))]
+  | QAffConv o =>
+      match normalize_orientation o with
+      | Err k => VErr k
+      | Ok [d0; d1; d2] => vaff (conv_aff d0 d1 d2 A)
+      | Ok _ => VErr "ValueError"
+      end
+  | QSpVec => VL (vvec (c0 A) ++ vvec (c1 A) ++ vvec (c2 A) ++ vvec (c0 A) ++ vvec (c1 A) ++ vvec (c2 A))
+  | QExtent2 =>
+      let '(n0, n1, n2) := shape in
+      let s0 := norm2 Qc Qcplus Qcmult (c0 A) in let s1 := norm2 Qc Qcplus Qcmult (c1 A) in
+      let s2 := norm2 Qc Qcplus Qcmult (c2 A) in
+      let vv := Qcmult (Qcmult s0 s1) s2 in
+      let nn := qc_inj (n0 * n1 * n2) in
+      VL [vqc (Qcmult (qc_inj (n0 * n0)) s0); vqc (Qcmult (qc_inj (n1 * n1)) s1);
+          vqc (Qcmult (qc_inj (n2 * n2)) s2); vqc vv; vqc (Qcmult (Qcmult nn nn) vv)]
+  | QCenterIdx => let '(n0, n1, n2) := shape in
+                  VL [VZ ((n0 - 1) / 2); VZ ((n1 - 1) / 2); VZ ((n2 - 1) / 2); VZ (n0 - 1); VZ (n1 - 1); VZ (n2 - 1)]
+  | QXfCall pts => if singular then VErr "LinAlgError"
+                   else let T := q_xform A0 A in VL (flat_map (fun j => vvec (apply_aff T j)) pts)
+  | QXfRound pts =>
+      if singular then VErr "LinAlgError"
+      else let T := q_xform A0 A in
+           VL (map (fun j =>
+                 let p := apply_aff T j in
+                 match qc_round (vx p), qc_round (vy p), qc_round (vz p) with
+                 | Some a, Some b, Some c =>
+                     if in_box shape (a, b, c) then VL [VZ a; VZ b; VZ c] else VErr "ValueError"
+                 | _, _, _ => VNone
+                 end) pts)
   end.
 
 Definition vol_vals (v : qvol) (j : idx) : list val :=
@@ -1004,3 +1070,34 @@ Arguments OPad {Vx}. Arguments OPadTo {Vx}. Arguments OCropTo {Vx}. Arguments OP
 Arguments OOrient {Vx}. Arguments OHanded {Vx}.
 Arguments Sp {Vx}. Arguments Copy {Vx}. Arguments WithArray {Vx}. Arguments GetChannel {Vx}.
 Arguments PermuteChannels {Vx}. Arguments SqueezeChannel {Vx}. Arguments ORand {Vx}.
+
+(* ------------------------------------------------------------ index items of other types.
+   _prepare_getitem_index accepts exactly int (bool included), slice and tuples of them: an index
+   that is none of these raises TypeError; within a tuple the items are checked in order, so an
+   out-of-range item BEFORE the foreign one wins, and a tuple of more than three items is refused
+   first (IndexError).  [None] = an item that is neither int nor slice (numpy integer, float, list,
+   None, Ellipsis, str). *)
+Inductive xindex := XOk (l : list (option item)) | XBadType.
+
+Fixpoint check_items_ext (shape : idx) (d : Z) (l : list (option item)) : res (list item) :=
+  match l with
+  | [] => Ok []
+  | None :: _ => Err "TypeError"
+  | Some it :: l' =>
+      bind (check_item (sel3 shape d) it) (fun _ =>
+      bind (check_items_ext shape (d + 1) l') (fun r => Ok (it :: r)))
+  end.
+
+Definition getitem_ext (shape : idx) (x : xindex) : res index :=
+  match x with
+  | XBadType => Err "TypeError"
+  | XOk l => if 3 <? Z.of_nat (length l) then Err "IndexError"
+             else bind (check_items_ext shape 0 l) (fun its => Ok (XTup its))
+  end.
+
+Definition run_get_ext (v : qvol) (x : xindex) : val :=
+  let g := geom_of _ _ v in
+  VL [vres out_vol (bind (getitem_ext (v_shape _ _ v) x) (fun ix => q_step v (Sp (OGet ix))));
+      vres out_geom (bind (getitem_ext (g_shape _ g) x) (fun ix =>
+                     match q_gstep g (Sp (OGet ix)) with Some r => r | None => Err "unmodelled" end))].
+
